@@ -382,7 +382,13 @@ def build(p):
         ds.append(["intellectualRights", None, {}, []])
     elif q["rights"] == "para":
         ds.append(["intellectualRights", None, {}, [["para", "CC-BY", {}, []]]])
-    if q["coverage"]:
+    if q["coverage"] == "geographic":
+        ds.append(["coverage", None, {}, [["geographicCoverage", None, {}, [["geographicDescription", "somewhere", {}, []]]]]])
+    elif q["coverage"] == "taxonomic":
+        ds.append(["coverage", None, {}, [["taxonomicCoverage", None, {}, [["generalTaxonomicCoverage", "plants", {}, []]]]]])
+    elif q["coverage"] == "references":
+        ds.append(["coverage", None, {}, [["references", "cov-1", {}, []]]])          # a known name; not missing, whatever else it is
+    elif q["coverage"]:
         ds.append(["coverage", None, {}, [["temporalCoverage", None, {}, [["singleDateTime", None, {}, [["calendarDate", "2000", {}, []]]]]]]])
     if q["maint_desc"] is not None:
         ds.append(["maintenance", None, {}, [description(q["maint_desc"])]])
@@ -451,6 +457,7 @@ def single_knob_deviations():
     devs += [dict(title_words=4), dict(title_words=0), dict(project_title_words=7)]
     for ab in (("absent", 0), ("own", 19), ("para", 19), ("inline", 5), ("own", 0), ("split", 20), ("nested", 24)):
         devs.append(dict(abstract=ab))
+    devs += [dict(coverage="geographic"), dict(coverage="taxonomic"), dict(coverage="references")]
     devs += [dict(coverage=False), dict(datatable=False), dict(rights="absent"), dict(rights="empty"), dict(methods=False),
              dict(project=False), dict(keywords=()), dict(keywords=(4,)), dict(keywords=(2, 2))]
     for kind in ("creator", "contact", "personnel"):
